@@ -127,6 +127,17 @@ class DbInfo(object):
         # equation is not balanced and that has no -mole_balance (10 polysulfide species of minteq.v4.dat) the text has two
         # readings ("stoichiometry from the chemical equation" vs. the name); the oracle accepts the sum under either.
         self.alt_elements = self._alt_stoichiometry()
+        # master species that contain an element other than their own (+H, O): Thermoddem "N(-5) CN-", iso.dat "[15N](0) N[15N]".
+        # The engine books such a species (and everything built from it) under its own element only, so species with the
+        # foreign element exist although that element was never entered and its reported total does not count them: the
+        # oracle observes these species too (closure) and does not assert the foreign element's total (counted).
+        self.foreign = {}
+        for m in db.master.values():
+            if m.element in ("E", "Alkalinity") or m.species not in db.species:
+                continue
+            extra = set(db.species[m.species].elements) - {m.base, "H", "O", "e"}
+            if extra and m.base not in ("H", "O"):
+                self.foreign.setdefault(m.base, set()).update(extra)
         self.coefs = {}
         self.coefs_alt = {}
         for s in db.species.values():
@@ -392,6 +403,8 @@ def solution_st(draw, inf, number, elements=None, max_el=8):
         imb = sum(inf.master_charge.get(c["el"], 0.0) * m for c, m in zip(sol["comps"], mol))
         if abs(imb) < 1e-3 and not any(inf.master_charge.get(c["el"], 0.0) == 0 and m > 1e-3 for c, m in zip(sol["comps"], mol)):
             sol["pH_opt"] = "charge"
+            # the final pH is not known in advance: keep pe inside the water stability field for every pH in 2..14
+            sol["pe"] = min(max(sol["pe"], 0.0), 6.0)
     elif k in (3, 4) and len(els) >= 2 and not any(c["el"] in inf.valence for c in sol["comps"]):
         # phase-adjusted element: a phase made of the chosen elements that contains it
         ph = inf.phases_for(els)
@@ -484,6 +497,7 @@ def render_solution(sol):
 
 
 def case_elements(inf, case):
+    """-> (elements whose species are observed, subset that is only there as 'foreign' element of a master species)"""
     els = set()
     for sol in case["sols"]:
         for c in sol["comps"]:
@@ -498,12 +512,17 @@ def case_elements(inf, case):
         elif r["kind"] == "eqphases":
             for p, _, _ in r["phases"]:
                 els |= set(inf.usable_phases[p].elements)
-    return sorted(els - {"H", "O", "e"})
+    foreign = set()
+    for _ in range(3):
+        for b in sorted(els):
+            foreign |= inf.foreign.get(b, set())
+        els |= foreign
+    return sorted(els - {"H", "O", "e"}), sorted(foreign - {"H", "O", "e"})
 
 
 def build_input(inf, case):
     """-> (input text, keys) where keys[i] names the i-th USER_PUNCH value"""
-    els = case_elements(inf, case)
+    els, foreign = case_elements(inf, case)
     species = inf.species_for(els)
     phases = sorted(inf.phases_for(els))
     if len(phases) > MAX_PHASES:
@@ -570,7 +589,7 @@ def build_input(inf, case):
                 Q.append("REACTION_TEMPERATURE 1\n %s" % cg.fmt(r["temp"]))
         Q.append("END")
         P.append("\n".join(Q))
-    return "\n".join(P) + "\n", items, {"elements": els, "species": species, "phases": phases, "sub_s": sub_s, "sub_p": sub_p}
+    return "\n".join(P) + "\n", items, {"elements": els, "foreign": foreign, "species": species, "phases": phases, "sub_s": sub_s, "sub_p": sub_p}
 
 
 # ----------------------------------------------------------------------------------------------- oracle
@@ -677,6 +696,8 @@ def check_case(case, ctx):
     classes = ["db=" + case["db"], "elements=%d" % min(nel, 9)] + ["opt=" + o for o in opts]
     if stats["redox_skipped"]:
         classes.append("redox_equations_skipped")
+    if stats.get("foreign_total_excluded"):
+        classes.append("excluded:total_of_element_foreign_to_a_master_species")
     if stats.get("isotope_HO_excluded"):
         classes.append("excluded:isotope_layer_H_O_totals_of_initial_solution")
     if _OFF:
@@ -725,6 +746,11 @@ def check_row(inf, case, sol, v, row, col, meta, stats, where):
     la[inf.eminus] = float(v["LAE"])
     la[inf.water] = float(v["LAW"])
     present = {s for s in meta["species"] if not is_absent(la[s])}
+    # the quantifier is over concentrations up to several molal: a state with a species above 1000 mol/kgw (only reachable with
+    # a pe far outside the stability field of water, e.g. from a -redox couple) is outside it; the engine clamps such moles
+    for s in present:
+        if s not in (inf.water, inf.eminus) and isinstance(v["LM:" + s], float) and v["LM:" + s] > 3.0:
+            raise Discard("unphysical_state:species_above_1000_molal")
     seen = stats.setdefault("seen", set())
     # ---- (1) mass action as written with the Python log K(T); (2) LK_SPECIES read-out = Python log K(T)
     for s in meta["species"]:
@@ -797,6 +823,9 @@ def check_row(inf, case, sol, v, row, col, meta, stats, where):
     for e in ["H", "O"] + meta["elements"]:
         if e in ("H", "O") and iso_skip:
             stats["isotope_HO_excluded"] = stats.get("isotope_HO_excluded", 0) + 1
+            continue
+        if e in meta["foreign"] and not case.get("assert_foreign_totals"):
+            stats["foreign_total_excluded"] = stats.get("foreign_total_excluded", 0) + 1
             continue
         sums = []
         for table in (inf.coefs, inf.coefs_alt) if inf.alt_elements else (inf.coefs,):
